@@ -340,6 +340,7 @@ def from_fields(kind: str, f: t.Dict[str, t.Any]) -> t.Any:
 _DESC_ALPHA = st.one_of(
     st.sampled_from(list("'\\|$(){} X-abcNAMEDESC'\\\n\t\x00\"éü€")),
     st.sampled_from(list("abc xyz012")),
+    st.sampled_from(gens.BOUNDARY_CHARS),
     st.characters(exclude_categories=["Cs"]),
 )
 
